@@ -309,6 +309,8 @@ def run(pid, tier, seed):
     obs += tc_props.build(pid, P, R, tier, log_dir)
     obs += emit_props.build(pid, P, R, tier, log_dir)
     obs += lower_props.build(pid, P, R, tier, log_dir)
+    import parse_props
+    obs += parse_props.build(pid, tier, log_dir)
     results = []
     for ob in obs:
         t0 = time.time()
@@ -326,6 +328,13 @@ def run(pid, tier, seed):
     assumptions = [
         "E2-X: values of enum/struct types are symbolic (tag + fields created on demand from the type definitions read from the sources); "
         "Box/&/Clone are identity; quote! expansions are modelled as token pushes; unsupported MIR aborts the obligation (inconclusive)",
+        "E2-X preconditions (facts about what earlier phases can produce): integer literals in source are 0..=i64::MAX (a leading minus is a "
+        "separate unary node), so the operand of a unary minus / an IR Int literal is never i64::MIN; exponent parentheses up to depth 2",
+        "E2-X slices: code before the entry block (recursive checks / lowering of sub-expressions, symbol lookups) is summarised by arbitrary "
+        "values of its results; locals assigned before the entry are arbitrary; calls into the checker's/lowerer's own stateful helpers "
+        "(types_compatible, errors.push, lookup_var, lower_expr) are uninterpreted events",
+        "emitted-token obligations: operand sub-expressions are atoms; `syn` (same version the compiler links) decides whether and how the "
+        "emitted tokens parse",
     ]
     extra = {"mirx_dump_s": log.get("mirx_dump_s"), "mirx_functions_in_dump": log.get("mirx_functions_in_dump")}
     return results, assumptions, extra
